@@ -119,6 +119,8 @@ COMBINATORS = [
     (r"^std::option::Option::<T>::ok_or_else$", "opt_ok_or_else"),
     (r"^std::option::Option::<T>::unwrap_or_else$", "opt_unwrap_or_else"),
     (r"^std::option::Option::<T>::is_some_and$", "opt_is_some_and"),
+    (r"^std::option::Option::<T>::map_or$", "opt_map_or"),
+    (r"^std::option::Option::<T>::map_or_else$", "opt_map_or_else"),
     (r"^std::result::Result::<T, E>::map$", "res_map"),
     (r"^std::result::Result::<T, E>::map_err$", "res_map_err"),
     (r"^std::result::Result::<T, E>::and_then$", "res_and_then"),
@@ -494,8 +496,42 @@ class Normaliser:
             return None
         return None
 
+    def canon_api(self, sp, j):
+        """Equivalent spellings of one library operation are rewritten to the spelling the rules know:
+        `s.parse::<T>()` -> `T::from_str(s)`;  `caps["g"]` -> `caps.name("g").unwrap().as_str()` (same panic, same text)."""
+        for bi in range(len(j["blocks"])):
+            blk = j["blocks"][bi]
+            t = blk["term"]
+            if t["k"] != "call" or blk.get("cleanup") or t.get("target") is None:
+                continue
+            c = t.get("callee", "")
+            span = blk["tspan"]
+            if c == "core::str::<impl str>::parse" and t.get("gargs"):
+                ty = t["gargs"][0]
+                t["callee"] = "std::str::FromStr::from_str"
+                t["callee_true"] = "core::str::FromStr::from_str"
+                t["callee_full"] = "<%s as std::str::FromStr>::from_str" % ty
+                t["self_ty"] = ty
+                t["trait"] = "std::str::FromStr"
+                rf = "core::num::<impl std::str::FromStr for %s>::from_str" % ty if re.match(r"^[ui](8|16|32|64|128|size)$", ty) else "<%s as std::str::FromStr>::from_str" % ty
+                t["resolved"] = rf
+                t["resolved_full"] = rf
+                t["canon_from"] = c
+                self.stats["canon_api"] = self.stats.get("canon_api", 0) + 1
+            elif c == "std::ops::Index::index" and re.match(r"^<regex::Captures<'\w+> as std::ops::Index<&('\w+ )?str>>::index$", t.get("resolved_full", "")):
+                m_l = sp.new_local("std::option::Option<regex::Match<'_>>", None)
+                u_l = sp.new_local("regex::Match<'_>", None)
+                r_l = sp.new_local("&regex::Match<'_>", None)
+                mk = lambda callee, full, args, tys, dest, target: {"k": "call", "callee": callee, "callee_true": callee, "callee_full": full, "gargs": [], "resolved": callee, "resolved_true": callee,
+                                                                    "resolved_full": full, "resolved_local": False, "args": args, "arg_tys": tys, "dest": dest, "target": target, "unwind": None, "fn_span": span, "canon_from": c}
+                b3 = sp.new_block([sp.assign(P(r_l), {"k": "ref", "mut": False, "place": P(u_l)}, span)], mk("regex::Match::<'h>::as_str", "regex::Match::<'_>::as_str", [MV(P(r_l))], ["&regex::Match<'_>"], t["dest"], t["target"]), span)
+                b2 = sp.new_block([], mk("std::option::Option::<T>::unwrap", "std::option::Option::<regex::Match<'_>>::unwrap", [MV(P(m_l))], ["std::option::Option<regex::Match<'_>>"], P(u_l), b3), span)
+                blk["term"] = mk("regex::Captures::<'h>::name", "regex::Captures::<'_>::name", list(t["args"]), list(t.get("arg_tys", [])), P(m_l), b2)
+                self.stats["canon_api"] = self.stats.get("canon_api", 0) + 1
+
     def normalise(self, j):
         sp = Splicer(j)
+        self.canon_api(sp, j)
         nblocks = len(j["blocks"])
         shared = {}
         for bi in range(nblocks):
@@ -512,6 +548,10 @@ class Normaliser:
             if kind and t.get("target") is not None:
                 self.desugar(sp, j, bi, blk, t, kind)
                 continue
+            # a local closure called directly: `let f = |x| ..; f(a)` is `<closure as Fn<(A,)>>::call(&f, (a,))`
+            if re.search(r"^std::ops::(Fn::call|FnMut::call_mut|FnOnce::call_once)$", t.get("callee", "")) and t.get("target") is not None and len(t["args"]) == 2:
+                if self.direct_closure_call(sp, j, bi, blk, t):
+                    continue
             lazy = None
             for rx, k in LAZY:
                 if re.search(rx, t.get("callee", "")):
@@ -559,6 +599,31 @@ class Normaliser:
                     cb = self.callable_of(j, a)
                     if cb and cb[0] == "closure":
                         self.closure_uses.setdefault(cb[1], [0, 0])[1] += 1
+
+    def direct_closure_call(self, sp, j, bi, blk, t):
+        cl = t["args"][0].get("move") or t["args"][0].get("copy")
+        tp = t["args"][1].get("move") or t["args"][1].get("copy")
+        if cl is None or tp is None or cl["proj"] or tp["proj"]:
+            return False
+        # the closure value: through one `&f` / `&mut f`
+        l = cl["local"]
+        d = self.single_def_stmt(j, l)
+        if d is not None and d.get("k") == "assign" and d["rv"]["k"] == "ref" and not d["rv"]["place"]["proj"]:
+            l = d["rv"]["place"]["local"]
+        cb = self.callable_of(j, CP(P(l)))
+        if cb is None or cb[0] != "closure":
+            return False
+        td = self.single_def_stmt(j, tp["local"])
+        if td is None or td.get("k") != "assign" or not td["rv"].get("tuple"):
+            return False
+        span = blk["tspan"]
+        e = self.emit_call(sp, "closure", cb[1], cb[2], list(td["rv"]["ops"]), t["dest"], t["target"], span, j)
+        if e is None:
+            return False
+        blk["term"] = sp.goto(e)
+        blk["desugared"] = "closure-call"
+        self.stats["closure_calls"] = self.stats.get("closure_calls", 0) + 1
+        return True
 
     def summary_splice(self, sp, j, bi, blk, t, kind):
         """`X = it.adaptor(closure)`: keep the call, but first run the closure body once on a synthetic element of `it`
@@ -615,6 +680,10 @@ class Normaliser:
         if rp is None:
             return
         cbs = [self.callable_of(j, a) for a in args[1:]]
+        default_op = None
+        if kind == "opt_map_or" and len(args) == 3:
+            default_op = args[1]  # a plain value, not a callback
+            cbs = cbs[1:]
         if not cbs or any(c is None for c in cbs):
             return
         # receiver into a fresh local so that projections are simple
@@ -655,6 +724,16 @@ class Normaliser:
                 b_none = call(0, [], P(res_l), b_fin)
             elif kind == "opt_unwrap_or_else":
                 b_some = sp.new_block([sp.assign(dest, sp.use(MV(some_v)), span)], sp.goto(cont), span)
+                b_none = call(0, [], dest, cont)
+            elif kind == "opt_map_or":
+                e = call(0, [MV(P(pay))], dest, cont)
+                b_some = sp.new_block([sp.assign(P(pay), sp.use(MV(some_v)), span)], sp.goto(e), span)
+                b_none = sp.new_block([sp.assign(dest, sp.use(default_op), span)], sp.goto(cont), span)
+            elif kind == "opt_map_or_else":
+                if len(cbs) != 2:
+                    return
+                e = call(1, [MV(P(pay))], dest, cont)
+                b_some = sp.new_block([sp.assign(P(pay), sp.use(MV(some_v)), span)], sp.goto(e), span)
                 b_none = call(0, [], dest, cont)
             elif kind == "opt_is_some_and":
                 e = call(0, [MV(P(pay))], dest, cont)
@@ -786,6 +865,7 @@ class Normaliser:
             cur = bi
             start = si + 1 if si is not None else 0
             hit = None
+            hit_sw = None
             if si is None:
                 cur = blocks[bi]["term"]["target"]
                 path.append(cur)
@@ -811,6 +891,13 @@ class Normaliser:
                     if a is not None and a["local"] == name and not a["proj"]:
                         hit = (cur, t)
                     break
+                if t["k"] == "switch" and cur != bi:
+                    # `match opt { .. }` / `if let Some(x) = opt` on the value itself: the discriminant is known too
+                    dp = t["discr"].get("move") or t["discr"].get("copy")
+                    dst = [st for st in blk["stmts"] if st["k"] == "assign" and dp is not None and st["place"] == {"local": dp["local"], "proj": []} and st["rv"]["k"] == "discr"]
+                    if dp is not None and not dp["proj"] and len(dst) == 1 and dst[0]["rv"]["place"]["local"] == name and not [e for e in dst[0]["rv"]["place"]["proj"] if e != "deref"]:
+                        hit_sw = (cur, t)
+                    break
                 if t["k"] == "goto" or (t["k"] == "drop" and t["place"]["local"] != name):
                     nxt = t["target"]
                     if nxt == bi or nxt in path:
@@ -820,6 +907,34 @@ class Normaliser:
                     start = 0
                     continue
                 break
+            if hit is None and hit_sw is not None:
+                # thread the plain switch: clone the chain up to and including the switch block
+                swb, swt = hit_sw
+                vidx = {"None": 0, "Some": 1, "Ok": 0, "Err": 1}[variant]
+                tmap2 = {v: b_ for v, b_ in swt["targets"]}
+                tgt = tmap2.get(vidx, swt.get("otherwise"))
+                if tgt is None or not path or path[-1] != swb:
+                    continue
+                remap = {}
+                for ob in path:
+                    nb = copy.deepcopy(blocks[ob])
+                    nb["id"] = len(blocks)
+                    nb["synthetic"] = True
+                    nb["threaded_from"] = ob
+                    remap[ob] = nb["id"]
+                    blocks.append(nb)
+                for ob in path:
+                    nb = blocks[remap[ob]]
+                    if ob == swb:
+                        nb["term"] = {"k": "goto", "target": tgt}
+                        nb["threaded_variant"] = variant
+                    elif nb["term"].get("target") in remap:
+                        nb["term"]["target"] = remap[nb["term"]["target"]]
+                t0 = blocks[bi]["term"]
+                if t0.get("target") in remap:
+                    t0["target"] = remap[t0["target"]]
+                    done += 1
+                continue
             if hit is None:
                 continue
             bblk, bt = hit
